@@ -821,7 +821,7 @@ def build_hll(real, comp, n_ids, fixed=None):
     if fixed is not None:
         r = real.ReducedPopulationModel(pop)
         names = pop.get_parameter_names()
-        r.fix_parameters({names[k]: 0.7 for k in fixed})
+        r.fix_parameters({names[k]: 0.7 for k in (range(len(names)) if fixed == 'all' else fixed)})
         pop = r
     cov = (0.3 + 0.1 * np.arange(n_ids * ncov).reshape(n_ids, ncov)) if ncov else None
     return real.HierarchicalLogLikelihood(lls, pop, covariates=cov)
@@ -899,6 +899,8 @@ def hierarchical(rec, part):
         for n_ids in (1, 2, 3):
             configs.append(('HLL(%s, %d ids)' % (comp_label(comp), n_ids), (lambda comp=comp, n_ids=n_ids: ('hll', comp, n_ids, build_hll(real, comp, n_ids)))))
         configs.append(('HLL(Reduced(%s){first, last fixed}, 2 ids)' % comp_label(comp), (lambda comp=comp: ('hll', comp, 2, build_hll(real, comp, 2, fixed=[0, -1])))))
+        if not any(k_.startswith('H') for k_ in flat_comp(comp)):
+            configs.append(('HLL(Reduced(%s){every population parameter fixed}, 2 ids)' % comp_label(comp), (lambda comp=comp: ('hll', comp, 2, build_hll(real, comp, 2, fixed='all')))))
 
     def to_posterior(st):
         kind, comp, n_ids, h = st
